@@ -827,6 +827,13 @@ theorem c16_api_lists_every_id (hot cold : List (Nat × ShardRes)) (offset size 
       · injection h with h1 h2 _ _
         rw [← h1, ← h2]; simp [c16_protodocs_length]
 
+/-- **C16 (over the wire a panic is an error).**  Behind the proxy's recover interceptor no response is a success when the
+handler panicked (wrapped `Offset+Size`, two stores delivering unrequested documents at once, a shard without replicas):
+the client receives `codes.Internal`; every other answer passes unchanged. -/
+theorem c16_wire_panic_is_error (a : ApiOut) :
+    (a = .panic → overWire a = .status false) ∧ overWire a ≠ .panic ∧ (a ≠ .panic → overWire a = a) := by
+  cases a <;> simp [overWire]
+
 open SV.ProxyApi in
 /-- **C16 (Export, aligned).**  `Export` takes the `Id` of what it sends from the document itself; whatever the stores
 do, what it sends is exactly the document list of `Search` (one per returned ID, in order - `c16_response_aligned`),
@@ -1032,6 +1039,12 @@ and takes `source` from `searchHost`, which returns `si.sourceByClient[host]` of
 theorem c16_x_source_of_asked_host :
     shardHostAndSource = ["host := hosts[idx[i]]", "resp, source, err := si.searchHost(ctx, request, host)"] ∧
     searchHostReturns = ["return data, si.sourceByClient[host], nil"] := by decide
+
+/-- the recover interceptors defer a closure that recovers and assigns the interceptor's NAMED result `err` (a deferred call
+with `err` passed by value would recover and then return `(nil, nil)`: a panicking handler would look like an empty success) -/
+theorem c16_x_recover_assigns_named_result :
+    recoverDefers = ["RecoverUnaryInterceptor:closure-recovers-and-assigns-named-err",
+      "RecoverStreamInterceptor:closure-recovers-and-assigns-named-err"] := by decide
 
 /-- how the handlers pair IDs and documents: `makeProtoDocs` (Search / ComplexSearch) by position - `Id` from
 `qpr.IDs[i]`, `Data` from the i-th `docs.Next()` whose error is ignored, and nothing leaves the loop early: one
